@@ -81,6 +81,9 @@ type Canonicalizer struct {
 	sunkInstrs           map[ssa.Instruction]bool
 	virtualPhiConstants  map[*ssa.Phi]map[int]string
 	virtualSubstitutions map[ssa.Value]ssa.Value
+	// scevTypes records the Go type of the value each substituted recurrence stands for (the
+	// recurrence itself has no width: int8 and int16 counters would render alike).
+	scevTypes map[*loop.SCEVAddRec]types.Type
 	effectiveInstrs      map[*ssa.BasicBlock][]ssa.Instruction
 	VirtualizedInstrs    map[ssa.Instruction]bool
 }
@@ -194,6 +197,7 @@ func (c *Canonicalizer) normalizeInductionVariablesRecursive(loops []*loop.Loop,
 				c.VirtualizedInstrs[phi] = true
 				scev := &loop.SCEVAddRec{Start: iv.Start, Step: iv.Step, Loop: l}
 				c.virtualSubstitutions[phi] = scev
+				c.noteSCEVType(scev, phi.Type())
 			}
 		}
 
@@ -210,6 +214,7 @@ func (c *Canonicalizer) normalizeInductionVariablesRecursive(loops []*loop.Loop,
 				if addRec, ok := scev.(*loop.SCEVAddRec); ok {
 					c.VirtualizedInstrs[binOp] = true
 					c.virtualSubstitutions[binOp] = addRec
+					c.noteSCEVType(addRec, binOp.Type())
 				}
 			}
 		}
@@ -620,6 +625,7 @@ func (c *Canonicalizer) resetScratch() {
 	}
 
 	c.effectiveInstrs = nil
+	c.scevTypes = nil
 }
 
 func (c *Canonicalizer) normalizeValue(v ssa.Value, preferredName ...string) string {
@@ -638,6 +644,30 @@ func (c *Canonicalizer) normalizeValue(v ssa.Value, preferredName ...string) str
 }
 
 const MaxRenamerDepth = 20
+
+func (c *Canonicalizer) noteSCEVType(a *loop.SCEVAddRec, t types.Type) {
+	if c.scevTypes == nil {
+		c.scevTypes = make(map[*loop.SCEVAddRec]types.Type)
+	}
+	c.scevTypes[a] = t
+}
+
+// tagSCEV completes the text of a recurrence: two induction variables of different loops can
+// have the same start and step, so it is tagged with its loop (canonical header name); and a
+// recurrence has no width, so the type of the value it replaces is added unless that is int.
+func (c *Canonicalizer) tagSCEV(s loop.SCEV, str string) string {
+	addRec, ok := s.(*loop.SCEVAddRec)
+	if !ok || addRec.Loop == nil {
+		return str
+	}
+	if id, ok := c.blockMap[addRec.Loop.Header]; ok {
+		str += "@" + id
+	}
+	if t, ok := c.scevTypes[addRec]; ok && t != nil && !types.Identical(t, types.Typ[types.Int]) {
+		str += ":" + sanitizeType(t)
+	}
+	return str
+}
 
 func (c *Canonicalizer) renamerFunc() loop.Renamer {
 	// Optimization: Slice-based stack avoids map allocation overhead
@@ -681,7 +711,9 @@ func (c *Canonicalizer) renamerFunc() loop.Renamer {
 			}
 
 			if scev, isScev := sub.(loop.SCEV); isScev {
-				return scev.StringWithRenamer(renamer)
+				// a recurrence mentioned inside another expression (the start of an inner
+				// loop's counter) needs its loop tag and width as much as a top-level one
+				return c.tagSCEV(scev, scev.StringWithRenamer(renamer))
 			}
 
 			current = sub
@@ -1242,15 +1274,7 @@ func (c *Canonicalizer) NormalizeOperand(v ssa.Value, context ssa.Instruction) s
 
 	switch operand := v.(type) {
 	case loop.SCEV:
-		str := operand.StringWithRenamer(c.renamerFunc())
-		// Two induction variables of different loops can have the same start and step:
-		// tag the recurrence with its loop (canonical header name) so they stay distinct.
-		if addRec, ok := operand.(*loop.SCEVAddRec); ok && addRec.Loop != nil {
-			if id, ok := c.blockMap[addRec.Loop.Header]; ok {
-				str += "@" + id
-			}
-		}
-		return str
+		return c.tagSCEV(operand, operand.StringWithRenamer(c.renamerFunc()))
 	case *ssa.Const:
 		if c.Policy.ShouldAbstract(operand, context) {
 			return fmt.Sprintf("<%s_literal>", sanitizeType(operand.Type()))
